@@ -1,7 +1,22 @@
-(* C03 - crash atomicity: source-order obligations regenerated from store/sync.rs, bitbox and
-   seglog on every run (the protocol theorem over the disk model is in progress). *)
-From Nomt Require Import SrcFacts_proofs.
+(* C03 - A process crash at any instant leaves exactly the old or the new state.
+   Model: SyncProto.v (disk with pending operations, crash images, specification of what reopening
+   reconstructs, executable monitor [discipline] evaluated on the real I/O traces). *)
+From Nomt Require Import Base SyncProto SyncProto_proofs SrcFacts_proofs.
 
+(* For EVERY instance, start disk, trace accepted by the monitor, cut point and crash image
+   (completed operations survive, every subset of the in-flight asynchronous writes): reopening
+   reconstructs exactly the old or exactly the new state; the old one before the manifest write,
+   the new one after its fsync. *)
+Theorem C03_crash_atomic : forall I d0 tr,
+  inst_ok I -> start_ok I d0 -> wal_safe I d0 -> discipline I d0 tr = true ->
+  forall n img, crash_image (drun d0 (firstn n tr)) img ->
+    (recover I img = ROld \/ recover I img = RNew) /\
+    (forall iw, index_of is_meta_write tr = Some iw -> n <= iw -> recover I img = ROld) /\
+    (forall is_, index_of is_meta_sync tr = Some is_ -> is_ < n -> recover I img = RNew).
+Proof. exact SyncProto_proofs.crash_atomic. Qed.
+Print Assumptions C03_crash_atomic.
+
+(* the phases of Sync::sync and the order inside its steps, regenerated from the source *)
 Theorem C03_sync_phase_order : sync_order_ok = true /\ sync_order_ok2 = true.
 Proof. exact SrcFacts_proofs.sync_order_ok_true. Qed.
 Print Assumptions C03_sync_phase_order.
